@@ -306,6 +306,7 @@ def predicate(steps, final):
     failures = 0
     started = stopped = in_flight = alive = False
     last_outcome = None            # of the latest attempt / session: "E" failed attempt, "C" connected, "D" session ended
+    listening = False              # a listener is registered with zeroconf (add / remove calls seen from outside)
     for i, (label, mlabels, evs, state, att) in enumerate(steps):
         before = now
         # waiting to retry = started, not stopped, nothing in flight, no session, and the latest attempt failed
@@ -318,6 +319,10 @@ def predicate(steps, final):
                 last_outcome = e
             elif e in ("D0", "D1"):
                 last_outcome = "D"
+            elif e == "L1":
+                listening = True
+            elif e == "L0":
+                listening = False
         if label == "start":
             started, stopped = True, False
         for e in evs:
@@ -360,6 +365,9 @@ def predicate(steps, final):
             bad = [t for t in att if t != due]
             if bad:
                 v.append(("C18/attempt-at-wrong-time", f"the retry timer was due at {due / U} s but an attempt started at {bad[0] / U} s"))
+        if stopped_after is not None and i >= stopped_after and label != "start" and listening and "S" in [e for _, _, ev2, _, _ in steps[:i + 1] for e in ev2]:
+            v.append(("C18/listening-after-stop", f"stop() has returned (event {stopped_after}) and the manager is still registered as an mDNS listener (event {i}: {label})"))
+            stopped_after = None
         failures = failures_after(failures, label, evs) if ("E" in evs or "C" in evs or label == "start") else failures
         if "D0" in evs and "A" not in evs and state.split(",")[1][0] == "0" and label.startswith("end"):
             v.append(("C18/unexpected-disconnect-no-retry", "no immediate attempt after an unexpected disconnect"))
@@ -370,8 +378,100 @@ def predicate(steps, final):
     return v
 
 
+def slow_hook_probe(n_failures, record_at, stage="start"):
+    """Application callbacks that take their time (they await): on_connect_error suspends until the probe lets it go, and a matching
+    mDNS record arrives while the hook of failure number `record_at` is suspended. Returns (gaps between the end of each failure and the
+    next attempt in units, events)."""
+    def go(loop):
+        async def inner():
+            import zeroconf
+            from zeroconf import DNSPointer
+            from zeroconf.const import _TYPE_PTR, _CLASS_IN
+            from aioesphomeapi.core import APIConnectionError
+            from aioesphomeapi.reconnect_logic import ReconnectLogic
+            run = Run(loop)
+            log = run.log
+            gate = {"fut": None}
+
+            async def on_connect():
+                log.append("C")
+
+            async def on_disconnect(expected):
+                log.append("D")
+
+            async def on_connect_error(err):
+                log.append("E")
+                gate["fut"] = loop.create_future()
+                try:
+                    await gate["fut"]
+                except asyncio.CancelledError:
+                    log.append("Ecancelled")
+                    raise
+                log.append("Edone")
+            run.rl = ReconnectLogic(client=run.cli, on_connect=on_connect, on_disconnect=on_disconnect, on_connect_error=on_connect_error, name="dev")
+            rl, cli = run.rl, run.cli
+            await rl.start()
+            await simnet.drain(loop)
+            gaps = []
+            for k in range(1, n_failures + 1):
+                if cli.pending is None:
+                    return gaps, list(log), f"no attempt in flight before failure {k}"
+                if stage == "finish" and cli.pending[0] == "start":
+                    cli.pending[1].set_result(None)
+                    await simnet.drain(loop)
+                n_attempts = len(cli.attempt_times)
+                cli.pending[1].set_exception(APIConnectionError("nope"))
+                await simnet.drain(loop)
+                if k == record_at:
+                    rec = DNSPointer("_esphomelib._tcp.local.", _TYPE_PTR, _CLASS_IN, 1000, "dev._esphomelib._tcp.local.")
+                    for listener in list(run.aiozc.zeroconf.listeners):
+                        listener.async_update_records(None, 0.0, [zeroconf.RecordUpdate(rec, None)])
+                    await simnet.drain(loop)
+                if len(cli.attempt_times) != n_attempts:
+                    return gaps, list(log), f"a new attempt started while the error callback of failure {k} was still running"
+                t_done = run.units()
+                if gate["fut"] is not None and not gate["fut"].done():
+                    gate["fut"].set_result(None)
+                await simnet.drain(loop)
+                # let time pass up to two minutes, one timer at a time
+                for _ in range(10):
+                    if len(cli.attempt_times) != n_attempts:
+                        break
+                    nt = loop.next_timer()
+                    if nt is None:
+                        break
+                    await simnet.advance(loop, to=nt + simnet.CLOCK_BASE)
+                if len(cli.attempt_times) == n_attempts:
+                    return gaps, list(log), f"no attempt after failure {k}"
+                gaps.append(cli.attempt_times[-1] - t_done)
+            for t in asyncio.all_tasks(loop):
+                if t is not asyncio.current_task():
+                    t.cancel()
+            return gaps, list(log), None
+        return inner()
+    return simnet.run(go)
+
+
+def run_slow_hook_probes(rep):
+    for stage in ("start", "finish"):
+        for n, at in ((4, 0), (4, 1), (4, 2), (4, 3), (5, 4)):
+            gaps, events, problem = slow_hook_probe(n, at, stage)
+            want = [min(round(1.8 ** k), 60) * U for k in range(1, len(gaps) + 1)]
+            replay = {"kind": "slow-hook-probe", "failures": n, "record_during_hook_of_failure": at, "stage": stage}
+            rep.case(("slow-hook", stage, n, at), nontrivial=True, sample={"probe": replay, "gaps_s": [g / U for g in gaps]})
+            rep.bump("probe:slow-hook")
+            where = f"{n} consecutive {stage}-phase failures with an on_connect_error callback that awaits" + (f", a matching mDNS record while the callback of failure {at} is suspended" if at else "")
+            if "Ecancelled" in events:
+                rep.violation("C18/error-callback-cancelled", f"{where}: the on_connect_error callback was cancelled half-way (events {events[-8:]})", replay)
+            elif problem:
+                rep.violation("C18/attempt-during-callback" if "while" in problem else "C18/no-retry", f"{where}: {problem}", replay)
+            elif gaps != want:
+                rep.violation("C18/backoff", f"{where}: retries came {[g / U for g in gaps]} s after the failures, expected {[w / U for w in want]} s", replay)
+
+
 def run(rep, tier, seed):
     rng = random.Random(seed)
+    run_slow_hook_probes(rep)
     rep.coverage["rule"] = (
         "adaptive random histories (length 10-60) over {start, stop, attempt outcomes ok / auth error / other error incl. long-hanging calls, expected / unexpected session "
         "ends, matching PTR/A and non-matching mDNS records, timer expiry, time advancing between timers} on the real ReconnectLogic with a stub client and fake zeroconf under "
@@ -440,5 +540,9 @@ def run(rep, tier, seed):
 
 def replay(path):
     d = json.loads(open(path).read())["replay"]
+    if d.get("kind") == "slow-hook-probe":
+        common.setup_impl_path()
+        print(slow_hook_probe(d["failures"], d["record_during_hook_of_failure"], d["stage"]))
+        return 0
     print(json.dumps(d, indent=1)[:3000])
     return 0
